@@ -2664,6 +2664,27 @@ package gomatrixserverlib
 //@   property C10, C11
 //@   nosafety
 //@   ensures unconflicted-state-is-re-applied-after-the-last-auth-pass: called(authAndApplyEvents) ==> ncalls(applyEvents) == after(authAndApplyEvents, ncalls(applyEvents)) + 1
+//@   calls authAndApplyEvents@root power-events-in-topological-order-first-then-the-rest-in-mainline-order: ncalls(authAndApplyEvents) <= 1 && (ncalls(authAndApplyEvents) == 0 ==> (called(reverseTopologicalOrdering) && !called(createPowerLevelMainline) && events == ret(reverseTopologicalOrdering))) && (ncalls(authAndApplyEvents) == 1 ==> (called(mainlineOrdering) && events == ret(mainlineOrdering)))
+//@   calls createPowerLevelMainline@root mainline-of-the-power-levels-resolved-by-the-first-auth-pass: ncalls(authAndApplyEvents) == 1 && !called(mainlineOrdering)
+//@   calls mainlineOrdering@root after-the-mainline-positions-were-recorded: ncalls(authAndApplyEvents) == 1 && called(createPowerLevelMainline)
+
+// Layering events on the partial state: every state event goes to the slot of its own (type, state key) - the three
+// singleton slots are only for create / power levels / join rules WITH THE EMPTY state key, members and third-party
+// invites are keyed by their state key, everything else by (type, state key); an event never lands in another key's slot
+//@ func (*stateResolverV2).applyEvents
+//@   property C10, C11
+//@   nosafety
+//@   requires r != nil && r.resolvedMembers != nil && r.resolvedThirdPartyInvites != nil && r.resolvedOthers != nil
+//@   loop 1: invariant 0 <= idx(1) && idx(1) <= len(events)
+//@   loop 1: step singleton-slots-only-for-the-empty-state-key: (events[old(idx(1))].StateKey() == nil || *events[old(idx(1))].StateKey() != "") ==> (r.resolvedCreate == old(r.resolvedCreate) && r.resolvedPowerLevels == old(r.resolvedPowerLevels) && r.resolvedJoinRules == old(r.resolvedJoinRules))
+//@   loop 1: step create-slot: r.resolvedCreate == ((events[old(idx(1))].StateKey() != nil && *events[old(idx(1))].StateKey() == "" && events[old(idx(1))].Type() == "m.room.create") ? events[old(idx(1))] : old(r.resolvedCreate))
+//@   loop 1: step power-levels-slot: r.resolvedPowerLevels == ((events[old(idx(1))].StateKey() != nil && *events[old(idx(1))].StateKey() == "" && events[old(idx(1))].Type() == "m.room.power_levels") ? events[old(idx(1))] : old(r.resolvedPowerLevels))
+//@   loop 1: step join-rules-slot: r.resolvedJoinRules == ((events[old(idx(1))].StateKey() != nil && *events[old(idx(1))].StateKey() == "" && events[old(idx(1))].Type() == "m.room.join_rules") ? events[old(idx(1))] : old(r.resolvedJoinRules))
+//@   loop 1: step member-slot: (events[old(idx(1))].StateKey() != nil && *events[old(idx(1))].StateKey() != "" && events[old(idx(1))].Type() == "m.room.member") ==> get(r.resolvedMembers, spec.SenderID(*events[old(idx(1))].StateKey())) == events[old(idx(1))]
+//@   loop 1: step third-party-invite-slot: (events[old(idx(1))].StateKey() != nil && *events[old(idx(1))].StateKey() != "" && events[old(idx(1))].Type() == "m.room.third_party_invite") ==> get(r.resolvedThirdPartyInvites, *events[old(idx(1))].StateKey()) == events[old(idx(1))]
+//@   loop 1: step other-state-by-type-and-state-key: (events[old(idx(1))].StateKey() != nil && (*events[old(idx(1))].StateKey() == "" ? (events[old(idx(1))].Type() != "m.room.create" && events[old(idx(1))].Type() != "m.room.power_levels" && events[old(idx(1))].Type() != "m.room.join_rules") : (events[old(idx(1))].Type() != "m.room.member" && events[old(idx(1))].Type() != "m.room.third_party_invite"))) ==> get(r.resolvedOthers, tuple(events[old(idx(1))].Type(), *events[old(idx(1))].StateKey())) == events[old(idx(1))]
+//@   loop 1: step events-without-state-key-change-nothing: events[old(idx(1))].StateKey() == nil ==> (forall k string :: get(r.resolvedMembers, spec.SenderID(k)) == old(get(r.resolvedMembers, spec.SenderID(k))) && get(r.resolvedThirdPartyInvites, k) == old(get(r.resolvedThirdPartyInvites, k)))
+//@   assigns r.resolvedCreate, r.resolvedPowerLevels, r.resolvedJoinRules, r.resolvedMembers[*], r.resolvedThirdPartyInvites[*], r.resolvedOthers[*]
 
 // Looking an event's closest mainline ancestor up never changes the mainline positions: the only write re-stores the
 // position just read under the same event ID (an event that is not on the mainline never gets a position).
